@@ -63,6 +63,7 @@ namespace
     int format = 0;      // vtu_output_format: 0 ASCII, 1 Base64Inline, 2 Base64Appended, 3 RawBinary, 4 RawBinaryCompressed
     unsigned limit = 0;  // --resolution-limit X (0: option not given); nx, ny, nz are the cell counts in effect, fnx, fny, fnz the ones written to the grid file
     unsigned fnx = 0, fny = 0, fnz = 0;
+    int order = 0;       // order of the lines of the grid file: 0 as documented (grid_type first), 1 reversed, 2 grid_type and dim last, 3 bounds first then counts then the rest
     double x0 = 0, x1 = 0, y0 = 0, y1 = 0, z0 = 0, z1 = 0;
   };
   const char *TYPE_NAMES[] = {"cartesian", "chunk", "annulus", "sphere"};
@@ -80,7 +81,7 @@ namespace
   std::string describe(const GCfg &c)
   {
     return JObj().str("grid_type", TYPE_NAMES[c.type]).integer("dim", c.dim).integer("n_cell_x", c.nx).integer("n_cell_y", c.ny).integer("n_cell_z", c.nz)
-           .integer("compositions", c.comps).integer("threads", c.threads).integer("world", c.world).integer("mode", c.mode).str("vtu_output_format", FORMATS[c.format]).integer("resolution_limit_option", c.limit).integer("n_cell_x_in_file", c.limit ? c.fnx : c.nx).integer("n_cell_y_in_file", c.limit ? c.fny : c.ny).integer("n_cell_z_in_file", c.limit ? c.fnz : c.nz)
+           .integer("compositions", c.comps).integer("threads", c.threads).integer("world", c.world).integer("mode", c.mode).str("vtu_output_format", FORMATS[c.format]).integer("grid_file_line_order", c.order).integer("resolution_limit_option", c.limit).integer("n_cell_x_in_file", c.limit ? c.fnx : c.nx).integer("n_cell_y_in_file", c.limit ? c.fny : c.ny).integer("n_cell_z_in_file", c.limit ? c.fnz : c.nz)
            .raw("bounds", "[" + wbgen::num(c.x0) + "," + wbgen::num(c.x1) + "," + wbgen::num(c.y0) + "," + wbgen::num(c.y1) + "," + wbgen::num(c.z0) + "," + wbgen::num(c.z1) + "]").done();
   }
   std::string grid_file(const GCfg &c)
@@ -91,6 +92,18 @@ namespace
     t += "z_min = " + wbgen::num(c.z0) + "\nz_max = " + wbgen::num(c.z1) + "\n# cells\nn_cell_x = " + std::to_string(c.limit ? c.fnx : c.nx) + "\n";
     if (c.dim == 3 || c.type == 2 || c.type == 1) t += "n_cell_y = " + std::to_string(c.limit ? c.fny : c.ny) + "\n";
     t += "n_cell_z = " + std::to_string(c.limit ? c.fnz : c.nz) + "\n";
+    if (c.order != 0)
+      {
+        // the same settings in another order (comment and blank lines stay where they are relative to the file start)
+        std::vector<std::string> keys, other;
+        { std::stringstream ss(t); std::string l; while (std::getline(ss, l)) (l.find(" = ") != std::string::npos && l[0] != '#' ? keys : other).push_back(l); }
+        if (c.order == 1) std::reverse(keys.begin(), keys.end());
+        else if (c.order == 2) std::rotate(keys.begin(), keys.begin() + 2, keys.end());
+        else std::rotate(keys.begin(), keys.begin() + 4, keys.end());
+        t.clear();
+        for (auto &l : other) t += l + "\n";
+        for (auto &l : keys) t += l + "\n";
+      }
     return t;
   }
 
@@ -152,6 +165,17 @@ namespace
       { GCfg c; c.type = 0; c.dim = 3; c.nx = 16; c.ny = 16; c.nz = 16; c.comps = 1; c.threads = 4; c.format = fmt; set_bounds(c); v.push_back(c); }
     { GCfg c; c.type = 1; c.dim = 3; c.nx = 12; c.ny = 11; c.nz = 9; c.comps = 2; c.threads = 6; c.format = 4; set_bounds(c); v.push_back(c); }
     { GCfg c; c.type = 0; c.dim = 2; c.nx = 70; c.nz = 64; c.comps = 3; c.threads = 7; c.format = 4; set_bounds(c); v.push_back(c); }
+    // the settings of the grid file in other orders, and a full ball (inner radius 0)
+    for (int order : {1, 2, 3})
+      for (int type : {0, 1, 2, 3})
+        {
+          GCfg c; c.type = type; c.dim = type == 2 ? 2 : 3; c.order = order; c.comps = 2; c.threads = 2; c.nx = type == 2 ? 8 : 3; c.ny = type == 2 ? 8 : 3; c.nz = 3; c.format = order;
+          if (type == 3) c.ny = c.nx;
+          set_bounds(c); v.push_back(c);
+          if (type == 0 || type == 1) { c.dim = 2; set_bounds(c); v.push_back(c); }
+        }
+    { GCfg c; c.type = 3; c.dim = 3; c.nx = 3; c.ny = 3; c.nz = 4; c.comps = 1; c.threads = 2; set_bounds(c); c.z0 = 0; v.push_back(c); }
+    { GCfg c; c.type = 2; c.dim = 2; c.nx = 8; c.ny = 8; c.nz = 3; c.comps = 1; c.threads = 1; set_bounds(c); c.z0 = 0; v.push_back(c); }
     // --resolution-limit X: every cell count of the file is capped at X
     for (unsigned lim : {1u, 2u, 3u, 5u, 100u})
       for (int type : {0, 1, 2, 3})
@@ -388,6 +412,26 @@ namespace
   }
 
   // depth and values at every node
+  // full ball / full disc (inner radius 0): all nodes of the innermost level coincide in the centre, so the structural oracles do not apply;
+  // what remains: finite positions, every node on one of the requested radial levels, the same number of nodes on every level
+  void check_radial_levels(const Captured &m, const GCfg &c, const Reporter &fail)
+  {
+    const size_t np = m.points.size() / 3;
+    std::vector<size_t> per(c.nz + 1, 0);
+    const double dr = (c.z1 - c.z0) / c.nz;
+    for (size_t i = 0; i < np; ++i)
+      {
+        const P3 p = node(m, i);
+        const double r = std::sqrt(p.x*p.x + p.y*p.y + p.z*p.z);
+        const long k = std::lround((r - c.z0) / dr);
+        if (!std::isfinite(r) || k < 0 || k > static_cast<long>(c.nz) || std::fabs(r - (c.z0 + k*dr)) > 1e-9 * c.z1)
+          { fail("mesh/node-not-on-a-requested-radial-level", "a node of a grid with inner radius 0 does not lie on one of the requested radial levels", JObj().integer("node", static_cast<long long>(i)).raw("position", jp(p)).done()); return; }
+        ++per[static_cast<size_t>(k)];
+      }
+    for (size_t k = 1; k < per.size(); ++k)
+      if (per[k] != per[0]) { fail("mesh/radial-levels-have-different-node-counts", "the radial levels of a grid with inner radius 0 do not have the same number of nodes", JObj().integer("level", static_cast<long long>(k)).integer("nodes", static_cast<long long>(per[k])).integer("nodes_on_level_0", static_cast<long long>(per[0])).done()); return; }
+  }
+
   void check_values(const Captured &m, const GCfg &c, WorldBuilder::World &native, const Reporter &fail, Ctx &ctx, size_t &inside_nodes, const Captured *main_mesh = nullptr)
   {
     static const int c_vals = Ctx::counter_id("node_values_compared");
@@ -813,6 +857,7 @@ namespace
       {
         const size_t np = m.points.size() / 3;
         if (np % (c.nz + 1) != 0) { fail("mesh/node-count", "number of nodes is not a multiple of the number of radial levels"); return; }
+        if (c.z0 == 0) { check_radial_levels(m, c, fail); goto mesh_done; }
         const long nt = static_cast<long>(np / (c.nz + 1));
         const double dr = (c.z1 - c.z0) / c.nz;
         // cells as square as the radial spacing allows at the outer radius
@@ -832,7 +877,9 @@ namespace
         L.position = [cc, nt, dr](const long (&t)[3]) { const double th = TWO_PI * t[0] / nt, r = cc.z0 + t[2]*dr; return P3{r*std::cos(th), r*std::sin(th), 0.0}; };
         check_lattice_mesh(m, L, fail);
       }
+    else if (c.z0 == 0) check_radial_levels(m, c, fail);
     else check_sphere_mesh(m, c, fail);
+mesh_done:
     if (ctx.nviol + static_cast<int>(ctx.replay_violations.size()) != before) return;
     size_t inside = 0;
     check_values(m, c, native, fail, ctx, inside);
@@ -858,7 +905,7 @@ int main(int argc, char **argv)
   spec.property = "C18";
   spec.level = "exploration";
   spec.rule = "full product of grid type x dim x cell counts (n_cell_x, n_cell_y, n_cell_z each in 1..3|5) x 2 bound sets x 2 worlds, with compositions {0,2,4}, threads {1,2,3} and output mode "
-              "{plain, --filtered, --by-tag, both} and output format assigned round-robin (quick) or all four modes x all five formats per tuple (thorough), plus finer grids and grids with 1331 / 4913 / 4615 nodes (thread counts 2..16, all five formats; arrays spanning several compression blocks) and the option --resolution-limit {1,2,3,5,100} on every grid type; one in-process run of the real gwb-grid main() per "
+              "{plain, --filtered, --by-tag, both} and output format assigned round-robin (quick) or all four modes x all five formats per tuple (thorough), plus finer grids and grids with 1331 / 4913 / 4615 nodes (thread counts 2..16, all five formats; arrays spanning several compression blocks) the option --resolution-limit {1,2,3,5,100} on every grid type, the settings of the grid file in three other orders, a full ball and a full disc (inner radius 0); one in-process run of the real gwb-grid main() per "
               "configuration. non-trivial: at least one node lies inside a feature (tag >= 0)";
   spec.assumptions = {"the arrays are captured at the call of vtu11::writeVtu (full precision); the written file is parsed back: ASCII files are compared with the %.6g rendering of the arrays, Base64Inline / Base64Appended / RawBinary / RawBinaryCompressed files are decoded the way a VTK reader does (format, offset and header attributes, zlib blocks) and compared byte for byte",
                       "requested mesh: cartesian and chunk grids must be exactly the (n+1)-point lattice between the bounds (chunk: longitude, latitude, radius mapped to cartesian), cells the lattice cells in valid VTK node order; "
